@@ -143,6 +143,8 @@ class Def:
             out.append('#[logos(utf8 = false)]')
         if self.errcb and self.errty:
             out.append('#[logos(error(%s, callback = |lex| %s))]' % self.errty)
+        elif getattr(self, 'errty_plain', None):
+            out.append('#[logos(%s)]' % self.errty_plain)    # an error type without an error callback: `error = T` / `error(T)`
         elif self.errcb:
             out.append('#[logos(error(ZErr, callback = |lex| ZErr::Cb(lex.span().len())))]')
         elif self.zerr:
@@ -421,6 +423,12 @@ def fixed_corpus():
     for lf in dd.leaves:
         lf.cb_form = 4
     out.append(dd)
+    # an error type that has an inherent `default()` next to its `Default` impl: the default error is the trait's value
+    for k, form in enumerate(['error = zoo_rt::ZErr2', 'error(zoo_rt::ZErr2)']):
+        dd = Def([L('regex', 'a+', cb=1), L('regex', 'b+', cb=9), L('regex', '[0-9]+'), L('regex', 'c+', cb=12, value=True), L('skip', ' +')], origin='fixed:errty-inherent-default-%d' % k)
+        dd.errty_plain = form
+        dd.zerr = False
+        out.append(dd)
     # the library's own `logos::skip` as a callback, on a pattern that other patterns begin with (a skipped match must leave
     # exactly what a skip pattern would: the next token may start with the very text that was just skipped)
     for k, leaves in enumerate([[L('token', '-', cb=3), L('token', '->'), L('token', '>'), L('regex', '[a-z]+')],
